@@ -300,7 +300,7 @@ def execute(cases_, tier, seed):
                  "default table; string/float format tables; every case probed with all %d lattice integers" % (tier, len(FORMATS), len(lat)))
     res.assumptions = ["schemars parses numeric keywords as f64; the oracle judges the echoed (parsed) numbers",
                        "on a side with neither bound nor recognised format probes are clipped to the i64 range (statement's fallback)"]
-    if len(cases_) > 20 and len(chosen_hist) < 6:
+    if not res.violations and (len(cases_) > 20 and len(chosen_hist) < 6):   # a subject that breaks everything is reported through its violations, not as vacuity
         raise MachineryError("vacuity guard: only %d distinct chosen types" % len(chosen_hist))
     return res
 
